@@ -1,6 +1,7 @@
 package rules
 
 import (
+	"go/constant"
 	"fmt"
 	"go/token"
 	"go/types"
@@ -769,6 +770,8 @@ func runQUEUED(c *Ctx) {
 		switch {
 		case vouched:
 			c.OK(pos, "node store returns the name on a cache hit", "NodeCache.Contains(key) is true: the store already holds the node (CACHEAFTER)", false)
+		case sentBySelect(r, sites[0].Parent()):
+			c.OK(pos, "node store returns the name after queueing the write", "the return is reached only on the select arm that sent the store closure to the writers (the other arms return an error)", false)
 		case ir.MustPass(r, isSend):
 			c.OK(pos, "node store returns the name after queueing the write", "every path passes the channel send of the store closure", false)
 		default:
@@ -779,6 +782,38 @@ func runQUEUED(c *Ctx) {
 	if n == 0 {
 		c.Undecided(fn, P.Pos(fn.Pos()), "no return of the computed name", "cannot find where the node store returns the name it computed")
 	}
+}
+
+// sentBySelect: r is dominated by the branch `index == k` of a select whose k-th arm sends the store closure (the
+// queue send made cancellable: `select { case storeQ <- write: case <-ctx.Done(): return "", ctx.Err() }`).
+func sentBySelect(r *ssa.Return, closure *ssa.Function) bool {
+	for _, f := range ir.FactsAt(r.Block()) {
+		bin, ok := f.Cond.(*ssa.BinOp)
+		if !ok || bin.Op != token.EQL || !f.Truth {
+			continue
+		}
+		ex, ok := bin.X.(*ssa.Extract)
+		k, isC := bin.Y.(*ssa.Const)
+		if !ok || !isC || ex.Index != 0 || k.Value == nil {
+			continue
+		}
+		sel, ok := ex.Tuple.(*ssa.Select)
+		if !ok {
+			continue
+		}
+		idx, exact := constant.Int64Val(constant.ToInt(k.Value))
+		if !exact || idx < 0 || int(idx) >= len(sel.States) {
+			continue
+		}
+		st := sel.States[idx]
+		if st.Dir != types.SendOnly || st.Send == nil {
+			continue
+		}
+		if mc, ok := ir.ResolveCell(st.Send).(*ssa.MakeClosure); ok && mc.Fn == ssa.Value(closure) {
+			return true
+		}
+	}
+	return false
 }
 
 func runXCOPYFLAGS(c *Ctx) {
